@@ -1059,18 +1059,19 @@ class SQLModel:
             temp_id_source = [0]
         if using is None:
             using = OrderedSet(extend_node.column_names)
-        using = using.union(
-            extend_node.partition_by, extend_node.order_by, extend_node.reverse
-        )
         subops = OrderedDict()
         for k, op in extend_node.ops.items():
             if k in using:
                 subops[k] = op
         if len(subops) <= 0:
             # using was not None is this case as len(extend_node.ops)>0 and all keys are in extend_node.column_names
+            # (no operator is used: the window's partition / order columns are not needed either)
             return extend_node.sources[0].to_near_sql_implementation_(
                 db_model=self, using=using, temp_id_source=temp_id_source
             )
+        using = using.union(
+            extend_node.partition_by, extend_node.order_by, extend_node.reverse
+        )
         if len(using) < 1:
             raise ValueError("must produce at least one column")
         missing = using - set(extend_node.column_names)
